@@ -262,7 +262,7 @@ func TestAlignedFlusher(t *testing.T) {
 		clck := clock.NewMock(start)
 		ctx, cancel := context.WithCancel(stats.NewContext(clock.Context(context.Background(), clck), stats.NewNullStatser()))
 		agg := &recAgg{clck: clck, sig: make(chan struct{}, 64)}
-		fl := statsd.NewMetricFlusher(interval, offset, true, proc{agg}, nil)
+		fl := statsd.NewMetricFlusher(interval, offset, true, proc{agg}, backendsGen().Draw(t, "backends"))
 		done := make(chan struct{})
 		go func() { fl.Run(ctx); close(done) }()
 		defer func() { cancel(); <-done }()
@@ -333,7 +333,7 @@ func TestAlignedFlusherJumps(t *testing.T) {
 		clck := clock.NewMock(start)
 		ctx, cancel := context.WithCancel(stats.NewContext(clock.Context(context.Background(), clck), stats.NewNullStatser()))
 		agg := &recAgg{clck: clck, sig: make(chan struct{}, 256), slow: map[int]bool{}, entered: make(chan struct{}, 1), release: make(chan struct{})}
-		fl := statsd.NewMetricFlusher(interval, offset, true, proc{agg}, nil)
+		fl := statsd.NewMetricFlusher(interval, offset, true, proc{agg}, backendsGen().Draw(t, "backends"))
 		done := make(chan struct{})
 		go func() { fl.Run(ctx); close(done) }()
 		released := true
@@ -504,7 +504,7 @@ func TestAlignedFlusherRealClock(t *testing.T) {
 		offset := offsetGen(interval).Draw(t, "offset")
 		ctx, cancel := context.WithCancel(stats.NewContext(context.Background(), stats.NewNullStatser()))
 		agg := &realAgg{sig: make(chan struct{}, 64)}
-		fl := statsd.NewMetricFlusher(interval, offset, true, proc2{agg}, nil)
+		fl := statsd.NewMetricFlusher(interval, offset, true, proc2{agg}, backendsGen().Draw(t, "backends"))
 		done := make(chan struct{})
 		go func() { fl.Run(ctx); close(done) }()
 		want := rapid.IntRange(3, 5).Draw(t, "flushes")
@@ -565,4 +565,28 @@ type proc2 struct{ a *realAgg }
 func (p proc2) Process(ctx context.Context, fn statsd.DispatcherProcessFunc) gostatsd.Wait {
 	fn(0, p.a)
 	return func() {}
+}
+
+// cbBackend completes every send at once, with or without an error: what the backends report must not influence
+// when the flusher flushes or what elapsed time it hands to the aggregators.
+type cbBackend struct{ err error }
+
+func (b cbBackend) Name() string { return "cb" }
+func (b cbBackend) SendMetricsAsync(ctx context.Context, mm *gostatsd.MetricMap, cb gostatsd.SendCallback) {
+	cb([]error{b.err})
+}
+func (b cbBackend) SendEvent(context.Context, *gostatsd.Event) error { return b.err }
+
+func backendsGen() *rapid.Generator[[]gostatsd.Backend] {
+	return rapid.Custom(func(t *rapid.T) []gostatsd.Backend {
+		switch rapid.IntRange(0, 3).Draw(t, "backend-kind") {
+		case 0:
+			return nil
+		case 1:
+			return []gostatsd.Backend{cbBackend{}}
+		case 2:
+			return []gostatsd.Backend{cbBackend{err: fmt.Errorf("scripted backend failure")}}
+		}
+		return []gostatsd.Backend{cbBackend{}, cbBackend{err: fmt.Errorf("scripted backend failure")}}
+	})
 }
